@@ -2,6 +2,7 @@ import Driver.Graph
 import Driver.Container
 import Driver.Coll
 import Driver.Mw
+import Driver.Conc
 /-! `godi_model`: reads the line protocol on stdin, prints one observation per line. -/
 open Driver
 
@@ -10,6 +11,7 @@ structure St where
   p : ContD.DSt := {}
   coll : CollD.St := {}
   mw : MwD.MwSt := {}
+  k : Driver.ConcD.St := {}
 
 def stepLine (s : St) (line : String) : St × String :=
   match words line with
@@ -17,6 +19,7 @@ def stepLine (s : St) (line : String) : St × String :=
   | "p" :: rest => let (p, o) := ContD.step s.p rest; ({ s with p := p }, o)
   | "c" :: rest => let (c, o) := CollD.step s.coll rest; ({ s with coll := c }, o)
   | "mw" :: rest => let (m, o) := MwD.step s.mw rest; ({ s with mw := m }, o)
+  | "k" :: rest => let (k, o) := ConcD.step s.k rest; ({ s with k := k }, o)
   | "#" :: _ => (s, "#")
   | [] => (s, "")
   | _ => (s, "bad-op")
